@@ -11,7 +11,7 @@ RULE = ("every list of the stated spaces (every interleaving of lengths) is exec
         "{(i,j,h): i!=j, equal length, h = mismatches <= k}; non-trivial = expected set non-empty")
 ASSUMPTIONS = ["alphabet restricted to amino-acid letters (kdtree/hash_based only accept those)",
                "hash_based Hamming ball over 20 letters: k=3 only in the thorough tier on Lists(V,2)"]
-REQUIRED_CLASSES = {"all": ["mixed-lengths", "lengths-not-sorted", "indel-reachable-not-hamming", "duplicate-at-distance-0", "long-strings>=127", "large-single-length-bucket"]}
+REQUIRED_CLASSES = {"all": ["mixed-lengths", "lengths-not-sorted", "indel-reachable-not-hamming", "duplicate-at-distance-0", "long-strings>=127", "large-single-length-bucket", "two-empty-strings"]}
 MIN_OUTCOMES = 10
 
 V = E.universe("AC", 3, minlen=1)   # 14 strings of length 1..3
@@ -23,6 +23,12 @@ def spaces(tier):
     def gen_lists():
         for seqs in E.lists(V, 4 if q else 5):
             yield ("list", seqs)
+
+    def gen_empty():
+        W = ["", "A", "C", "AC"]
+        for seqs in E.lists(W, 4 if q else 5, minlen=2):
+            if seqs.count("") >= 1:
+                yield ("list", seqs)
 
     def gen_lists_hash():
         for seqs in E.lists(V, 3):
@@ -48,6 +54,7 @@ def spaces(tier):
     return [
         Space("long-string-boundary-family", gen_long, "equal-length neighbours and near-misses of length 127..300 mixed with short strings: x^n, x^(n-1)y, yx^(n-1), x^(n-2)yy, x^(n+1), x^(n-1); all engines, k in 1..2 (hash_based k=1)", per_case=True),
         Space("all-length-interleavings", gen_lists, "Lists(V,4) quick / Lists(V,5) thorough, V = 14 strings of length 1..3 over {A,C}; k in 1..3; nearest_neighbor, symdel, symdel(seqs2=self), kdtree", shards=64),
+        Space("lists-with-empty-strings", gen_empty, "all lists of 2..4(5) strings over {'', A, C, AC} containing the empty string at least once (two empty strings are equal-length neighbours at distance 0)", shards=16),
         Space("all-length-interleavings-hash_based", gen_lists_hash, "Lists(V,3) x k in 1..2 (thorough: Lists(V,2) x k=3) on hash_based"),
         Space("mixed-length-universe", gen_uni, "U(ACD,5) quick / U(ACD,6),U(ACDE,5) thorough as one list in sorted, reversed and length-interleaved order", per_case=True),
     ]
@@ -118,6 +125,8 @@ def check_case(case, acc):
             acc.cls("lengths-not-sorted")
         if len(set(seqs)) < len(seqs):
             acc.cls("duplicate-at-distance-0")
+        if seqs.count("") >= 2:
+            acc.cls("two-empty-strings")
         from mc.refmodel import ref_lev
         if any(len(a) != len(b) and ref_lev(a, b) == 1 for a, b in itertools.combinations(set(seqs), 2)):
             acc.cls("indel-reachable-not-hamming")
